@@ -44,6 +44,7 @@ class TaskCtx:
         self.assumptions = set()
         self.nclauses = 0
         self.dom = None
+        self.canaries = []
 
     # -- E1
     def smt(self):
@@ -139,6 +140,18 @@ class PathCtx:
                                "hypotheses": len(hyps), "witness": self.witness()})
         return r.status == "proved"
 
+    def canary(self, clause, goal):
+        """a deliberately wrong variant of a specification: it must NOT be provable.  A canary that
+        is proved means the engine or the encoding is broken (exit 3), not that the code is fine."""
+        from .oblig import discharge
+        tc = self.tc
+        name = "%s/%s/canary:%s#%s" % (tc.prop, tc.task.name, clause, self.label)
+        hyps = self.hyps + list(self.dom.facts) + [d != 0 for d in self.dom.divisors]
+        r = discharge(self.dom, name, hyps, goal, timeout_ms=4000, use_cvc5=False, kind=tc.task.kind)
+        tc.canaries.append({"name": name, "outcome": r.status})
+        if r.status == "proved":
+            raise RuntimeError("canary %s was PROVED: the engine is unsound or the hypotheses are contradictory" % name)
+
     def check_divisors(self, replay=None):
         """vacuity guard for the no-division-by-zero hypothesis: if some divisor must vanish on this
         path the hypothesis is contradictory -- that is a defect (non-finite result), not a proof"""
@@ -212,7 +225,7 @@ def _child(task, prop, tier, seed, conn):
         task.fn(tc)
         out = {"results": [dict(r.to_dict(), clause=getattr(r, "clause", None), replay=getattr(r, "replay", None))
                            for r in tc.results],
-               "samples": tc.samples, "notes": tc.notes + (tc.dom.notes if tc.dom and hasattr(tc.dom, "notes") else []),
+               "samples": tc.samples, "canaries": tc.canaries, "notes": tc.notes + (tc.dom.notes if tc.dom and hasattr(tc.dom, "notes") else []),
                "lib_used": sorted(tc.lib.used), "assumptions": sorted(tc.assumptions),
                "stats": getattr(tc.dom, "stats", {}) if tc.dom else {}, "wall": time.time() - t0}
     except Exception as e:
@@ -347,6 +360,7 @@ def run_check(prop, module, tier, seed):
     notes = []
     solver_s = 0.0
     queries = 0
+    canaries = []
     for t in tasks:
         d = done.get(t.name, {"error": "no result"})
         if "error" in d:
@@ -361,6 +375,7 @@ def run_check(prop, module, tier, seed):
             errors.append((t.name, "task generated zero obligations", ""))
         results += d["results"]
         samples += d["samples"][:2]
+        canaries += d.get("canaries", [])
         lib_used |= set(d["lib_used"])
         notes += d["notes"]
         solver_s += d["stats"].get("solver_s", 0.0)
@@ -497,6 +512,8 @@ def run_check(prop, module, tier, seed):
         "per_task": per_task,
         "refuted": [r["name"] for r in refuted],
         "undecided": [r["name"] for r in undecided],
+        "canaries": {"run": len(canaries), "all_rejected": all(c["outcome"] != "proved" for c in canaries),
+                     "samples": canaries[:4]},
         "known_findings_applied": [ck for (_, ck) in known_hits],
         "source_sha": prog.sha([m for m in prog.modules if prog.modules[m] is not None]),
         "ingestion_drops": DROPPED,
